@@ -1520,8 +1520,9 @@ class SymX:
         cur = self.eval(s.target, st)
         val = self.eval(s.value, st)
         op = _BINOPS.get(type(s.op), "?")
-        if cur[0] != "box" and op == "+" and (val[0] in ("list",) or val[0] == "box" and val[2] == "list" or val[0] == "comp" and val[1] == "list") and isinstance(s.target, ast.Name):
-            # `xs += [..]` with a list on the right: xs is a list, extended in place (the name keeps denoting the same object)
+        if cur[0] not in ("box", "binop", "list", "tuple") and op == "+" and (val[0] in ("list",) or val[0] == "box" and val[2] == "list" or val[0] == "comp" and val[1] == "list") and isinstance(s.target, ast.Name):
+            # `xs += [..]` with a list on the right: xs is a list, extended in place (the name keeps denoting the same object);
+            # a value that was just built by a display / concatenation has no other name: the rebinding below describes it
             self._record("mut", ("method", "extend"), cur, "extend", (val,), (), st, s, None)
             self._mutate(cur, "extend", (val,), st)
             return st
